@@ -212,8 +212,8 @@ func FuzzC12SubscribeRequest(f *testing.F) {
 		}
 	}
 	// sizes: subscriptions per list, keys per element, elements per path, long strings; undeclared enum numbers near and far
-	for _, mode := range []pb.SubscriptionList_Mode{0, 1, 2, 3, 4, 16, 17, -1, math.MaxInt32, math.MinInt32} {
-		for _, n := range []int{5, 9, 17, 65, 100} {
+	for i, mode := range []pb.SubscriptionList_Mode{0, 1, 2, 3, 4, 16, 17, -1, math.MaxInt32, math.MinInt32} {
+		for _, n := range [][]int{{5, 65}, {9, 17}, {17, 100}, {4, 33}}[i%4] {
 			sl := &pb.SubscriptionList{Mode: mode, Encoding: pb.Encoding(n), Prefix: &pb.Path{Target: "dev", Elem: []*pb.PathElem{keyedElem("e", n%18)}}}
 			for i := 0; i < n; i++ {
 				sl.Subscription = append(sl.Subscription, &pb.Subscription{Mode: pb.SubscriptionMode(i - 1), Path: &pb.Path{Elem: []*pb.PathElem{{Name: "l"}, keyedElem("e", i%18), {Name: "*"}}}})
